@@ -218,6 +218,7 @@ func corrC09(r *Run) {
 		})
 		for c, n := range perLabel {
 			r.Count(fmt.Sprintf("sweep/%s/%d", det.op, byte(c)), true, fmt.Sprintf("exhaustive per-rune sweep %s -> %s (%d runes)", det.op, labelName(c), n))
+			r.Evaluations += n - 1 // every rune of the sweep was one evaluation of the property on the implementation
 		}
 	}
 
@@ -290,7 +291,7 @@ func corrC09(r *Run) {
 		"ְ", "АЀ", "日本©", "가¢", "", "@", "€", "abcdef€", "abcde€", "\x00abc", "\U0001F48A"} {
 		emit(s, "corpus")
 	}
-	n := r.N(22, 300)
+	n := r.N(22, 800)
 	for _, p := range pools {
 		name := labelName(p.dc)
 		for i := 0; i < n; i++ {
